@@ -64,13 +64,14 @@ def sweep_cells(cs_, cc, tier):
     if cs_ == "monoclinic":
         bs = [50, 70, 90.0004, 110, 130, 150] if tier == "quick" else [40, 50, 60, 70, 80, 89.9996, 90.0004, 100, 110, 120, 130, 140, 150, 160]
         return [[a, b, c, 90.0, float(x), 90.0] for x in bs] + [[c, b, a, 90.0, float(x), 90.0] for x in bs[::2]]
+    # LONG marks cells with one very long axis: a thin shell there reaches |index| > 127 (and > 255 in thorough)
     if cs_ == "orthorhombic":
-        return [[a, b, c, 90., 90., 90.], [c, a, b, 90., 90., 90.], [2.0, 9.0, 4.0, 90., 90., 90.], [9.0, 2.0, 4.0, 90., 90., 90.]]
+        return [[a, b, c, 90., 90., 90.], [c, a, b, 90., 90., 90.], [2.0, 9.0, 4.0, 90., 90., 90.], [9.0, 2.0, 4.0, 90., 90., 90.], [3.0, 3.5, 380.0, 90., 90., 90.]]
     if cs_ == "tetragonal":
-        return [[a, a, x, 90., 90., 90.] for x in (1.5, 4.1, 9.7)]
+        return [[a, a, x, 90., 90., 90.] for x in (1.5, 4.1, 9.7)] + [[3.0, 3.0, 400.0, 90., 90., 90.]] + ([[3.0, 3.0, 900.0, 90., 90., 90.]] if tier == "thorough" else [])
     if cs_ in ("trigonal", "hexagonal"):
         if cc == "rhombohedral":
-            als = [40, 60, 80, 95, 110] if tier == "quick" else [30, 40, 50, 60, 70, 80, 89.9996, 90.0, 95, 100, 105, 110, 115, 118]
+            als = [40, 60, 80, 90, 95, 110] if tier == "quick" else [30, 40, 50, 60, 70, 80, 89.9996, 90.0, 95, 100, 105, 110, 115, 118]
             return [[a, a, a, float(x), float(x), float(x)] for x in als]
         return [[a, a, x, 90., 90., 120.] for x in (1.5, 4.1, 9.7)]
     return [[a, a, a, 90., 90., 90.], [7.9, 7.9, 7.9, 90., 90., 90.]]
@@ -107,6 +108,9 @@ def check_case(case):
     if case.get("sweep"):
         m = min(cell[:3])
         shells = [(0.0, 2.6 / m), (1.1 / m, 2.1 / m)]
+        if max(cell[:3]) > 100:  # long axis: a thin shell that contains (0,0,l) with l ~ 130 (or ~ 300) and its neighbours
+            M = max(cell[:3])
+            shells = [(64.2 / M, 68.7 / M)] if M < 500 else [(150.2 / M, 152.1 / M)]
     elif not case.get("far", True):
         shells = shells[:-1]  # far-out thin shell: xfab.laue runs it on the first cell of each setting only (C14 compares the modules)
     orc = G.Oracle(g, cell, max(s[1] for s in shells))
@@ -117,7 +121,7 @@ def check_case(case):
         ref = orc.allowed(smin, smax)
         key = "%s:shell=(%.6f,%.6f]" % (base, smin, smax)
         np.random.seed(0)
-        H, err = G.call_lib(mod.genhkl_all, cell, smin, smax, sgno=no, cell_choice=cc)
+        H, err = G.call_lib(mod.genhkl_all, cell, smin, smax, sgno=no, cell_choice="".join(list(cc)))  # a string built at run time, not a literal
         if err:
             r.evals += 1
             r.violation(key + ":exception", "genhkl_all raised on a valid input", None, err)
